@@ -316,7 +316,7 @@ def run(plan: dict) -> dict:
 # ---------------------------------------------------------------------------
 
 FAULT_REGIONS = ["_lower_and_call", "wrapped", "lower_equation_with_plugin", "lower_jaxpr_with_plugins", "_activate_full_plugin_worlds_for_body", "_build_and_finalize_ir_model", "_trace_to_jaxpr", "apply_monkey_patches", "_optimize_graph_with_failure_policy", "to_onnx"]
-FX = ["flat", "flat_f64", "net", "outer", "fn_boundary", "fn_kw", "eqx_block", "plain", "ublock_pair", "two_same", "two_diff", "kwblock", "resconv_nchw", "resconv", "chanattn_nchw", "transpose_forest", "reshape_chain", "cf_cond", "cf_fori", "cf_while", "cf_scan", "cf_nested", "fn_boundary_f64", "autoflags", "gather_const_idx", "dead_cast", "f16_cast_chain", "named_io", "implicit_fn_a", "implicit_fn_b"]
+FX = ["flat", "flat_f64", "net", "outer", "fn_boundary", "fn_kw", "eqx_block", "plain", "ublock_pair", "two_same", "two_diff", "kwblock", "resconv_nchw", "resconv", "chanattn_nchw", "transpose_forest", "reshape_chain", "cf_cond", "cf_fori", "cf_while", "cf_scan", "cf_nested", "fn_boundary_f64", "autoflags", "gather_const_idx", "dead_cast", "f16_cast_chain", "named_io", "implicit_fn_a", "implicit_fn_b", "dead_fn_call"]
 _BIAS = ("nchw", "transpose", "conv", "resblock", "attention", "onnx_functions", "reshape", "vit", "cnn")
 
 
@@ -349,6 +349,14 @@ def gen_run(seed: int, run: int, reqs: list[dict], n_meas: int) -> dict:
     hashseed = 0 if run % 7 == 0 else r.getrandbits(32)
     import_perm = None if run % 3 == 0 else r.getrandbits(32)
     picked = r.sample(reqs, min(len(reqs), n_meas))
+    # requests that only show a dependence on history next to a particular companion: the companion is
+    # converted right before them in most runs (the canonical reference is computed without it being adjacent)
+    companions = {"fx::c14::implicit_fn_a": "fx::c14::implicit_fn_b", "fx::c14::implicit_fn_b": "fx::c14::implicit_fn_a", "fx::c14::fn_kw": "fx::c14::flat", "fx::c14::gather_const_idx": "fx::c14::gather_const_idx"}
+    by_pid = {q["pid"]: q for q in reqs if not q.get("over") and q.get("mut") is None}
+    forced = [by_pid[p_] for p_ in r.sample(sorted(companions), 2) if p_ in by_pid]
+    for q in forced:
+        if q not in picked:
+            picked.insert(r.randrange(len(picked) + 1), q)
     muts = [q for q in reqs if q.get("mut") is not None]
     if muts:
         for q in r.sample(muts, min(2, len(muts))):
@@ -380,6 +388,8 @@ def gen_run(seed: int, run: int, reqs: list[dict], n_meas: int) -> dict:
         elif u < 0.62 and late:
             ops.append({"op": "decorate_late"})
             ops.append({"op": "convert", "pid": "fx::c14::late"})
+        if q["pid"] in companions and not q.get("over") and companions[q["pid"]] in by_pid and r.random() < 0.8:
+            ops.append(dict(by_pid[companions[q["pid"]]]))
         if q.get("mut") is not None and r.random() < 0.8:
             # export the same live objects in another state first, then update them in place
             ops.append({**q, "mut": r.choice([s_ for s_ in (0, 1, 2, 3) if s_ != q["mut"]])})
